@@ -56,7 +56,7 @@ FEB_LEAP_MONTH = 29
 DAYS_IN_WEEK = 7
 
 
-class _FakeParent(bs4.Tag):
+class _FakeParent:
     """
     Fake parent class.
 
